@@ -1,2 +1,27 @@
-(* C01 - statements only (proofs pending). *)
-From N2 Require Import Model.All.
+(* C01 - a step runs only after everything it depends on, and at most once.  Statements only;
+   proofs in Proofs/SchedRun*.v, Proofs/SchedWant*.v. *)
+From N2 Require Import Model.All Proofs.SchedSpec.
+From N2 Require Import Proofs.SchedRunThms Proofs.SchedRunFinal Proofs.SchedLive.
+
+Theorem C01_started_after_producers : forall cf decls, graph_wf (cf_graph cf) -> forall r b r', reachable cf decls r -> accept1 cf r (EStart b) = Some r' -> forall p, ord_reach (cf_graph cf) b p -> get_state (rs_bs r') p = Done.
+Proof. exact C01_started_after_producers_closed. Qed.
+Print Assumptions C01_started_after_producers.
+
+Theorem C01_done_is_final : forall cf decls, graph_wf (cf_graph cf) -> forall r tr r' p, reachable cf decls r -> accepts cf r tr = Some r' -> get_state (rs_bs r) p = Done -> get_state (rs_bs r') p = Done.
+Proof. exact C01_done_is_final_closed. Qed.
+Print Assumptions C01_done_is_final.
+
+Theorem C01_at_most_once : forall cf decls, graph_wf (cf_graph cf) -> forall s fl tr r b, wanted (cf_graph cf) (bs_new (length (g_builds (cf_graph cf))) decls) s -> accepts cf (run_init s fl) tr = Some r -> (starts_of b tr <= 1)%nat.
+Proof. exact C01_at_most_once_closed. Qed.
+Print Assumptions C01_at_most_once.
+
+Theorem C01_at_most_once_reachable : forall cf decls, graph_wf (cf_graph cf) -> forall r tr r' b, reachable cf decls r -> accepts cf r tr = Some r' -> (starts_of b tr <= 1)%nat.
+Proof. exact C01_at_most_once_reachable_closed. Qed.
+Print Assumptions C01_at_most_once_reachable.
+
+(* Validation inputs impose no order: in the witness, step b has a validation input f produced by
+   step v; both are wanted; b is started while v is still Ready.  Dependencies discovered from
+   depfiles do not occur in [graph] / [accept1] at all, so the scheduler never waits for them. *)
+Theorem C01_validation_and_discovered_impose_no_order : exists cf decls s log tr r b v f, graph_wf (cf_graph cf) /\ want_targets (cf_graph cf) (bs_new (length (g_builds (cf_graph cf))) decls, []) [1%nat] = Ok (s, log) /\ accepts cf (run_init s None) tr = Some r /\ In f (validation_ins (get_build (cf_graph cf) b)) /\ file_input (cf_graph cf) f = Some v /\ starts_of b tr = 1%nat /\ get_state (rs_bs r) b = Running /\ get_state (rs_bs r) v = Ready.
+Proof. exact validation_imposes_no_order_started. Qed.
+Print Assumptions C01_validation_and_discovered_impose_no_order.
